@@ -573,6 +573,7 @@ def finish(prop, tier, seed, t0, hs, res, problems, violations, known_lines, src
                                     f"reproduced natively (see {rp}) - inconclusive")
         elif smt and smt.get("status") in ("error", "inconclusive"):
             log(f"[{prop}] MIR->SMT cross-check inconclusive: {smt.get('error') or smt.get('reason')}")
+            problems.append(f"MIR->SMT obligations not decided ({smt.get('error') or smt.get('reason')}) - inconclusive, never a pass")
     write_evidence(prop, tier, seed, t0, hs, res, problems, violations, known_lines, src_hash, smt)
     for l in known_lines:
         print(l)
